@@ -522,6 +522,7 @@ func (s *Sink) Case(op string, run func() string) {
 func (s *Sink) DirectFail(key string, input string, what string) {
 	s.DirectFailures++
 	fmt.Fprintf(s.direct, "%s\t%s\t%s\n", key, input, strings.ReplaceAll(what, "\n", "\\n"))
+	s.direct.Flush() // a later fatal crash of the implementation must not lose this finding
 }
 
 func (s *Sink) Close() {
